@@ -101,22 +101,24 @@ def resolve(k: int, d0: bool, d1: bool, d2: bool, c0: bool, c1: bool, c2: bool) 
     return data == dcopy and ctx == ccopy  # the supplied mappings are never written to
 
 
-AVAIL_MENU = [["y", "a", "b"], ["b", "a", "y"], ["a"], ["c", "b", "a", "y"], [], ["y"], ["b", "y", "c"], ["a", "c"]]
-LHS_MENU = [None, "y", "y + a", "a", "b + y", "c"]
+AVAIL_MENU = [["y", "a", "b"], ["b", "a", "y"], ["a"], ["c", "b", "a", "y"], [], ["y"], ["b", "y", "c"], ["a", "c"],
+              # column names that are not identifiers, that read like an expression, or that shadow a built-in transform
+              ["body mass", "a", "log", "y"], ["a-b", "a", "b", "y", "scale"]]
+LHS_MENU = [None, "y", "y + a", "a", "b + y", "c", "`body mass`", "log", "`a-b`", "`a-b` + scale"]
 
 
 def dot_expand(av: int, lh: int, ii: bool, extra: int) -> bool:
     """
-    pre: 0 <= av < 8 and 0 <= lh < 6 and 0 <= extra < 3 and av == __SHARD__
+    pre: 0 <= av < 10 and 0 <= lh < 10 and 0 <= extra < 3 and av == __SHARD__
     post: _
     """
-    av, lh, extra = _pick(av, 0, 7), _pick(lh, 0, 5), _pick(extra, 0, 2)
+    av, lh, extra = _pick(av, 0, 9), _pick(lh, 0, 9), _pick(extra, 0, 2)
     ii = bool(ii)
     available = AVAIL_MENU[av]
     lhs = LHS_MENU[lh]
     rhs = [".", ". + a", "b + ."][extra]
     formula = rhs if lhs is None else f"{lhs} ~ {rhs}"
-    used = set() if lhs is None else {t.strip() for t in lhs.split("+")}
+    used = set() if lhs is None else {t.strip().strip("`") for t in lhs.split("+")}
     want = [v for v in available if v not in used]
     if extra == 1:
         want = want + (["a"] if "a" not in want else [])
@@ -129,6 +131,8 @@ def dot_expand(av: int, lh: int, ii: bool, extra: int) -> bool:
     part = terms if lhs is None else terms.rhs
     part = part.root if hasattr(part, "_structure") else part
     got = [":".join(f.expr for f in t.factors) for t in part]
+    if extra == 1 and "a" in want[:-1]:
+        pass
     return got == want
 
 
